@@ -483,6 +483,14 @@ def or_chains(facts, fn):
     """ordered source lists of Option::or / or_else chains in fn and its closures: [[spec fields in order], ...]"""
     chains = []
     fam = [fn] + facts.closures_of(fn)
+    # helpers of the same crate called from the function (one level), with their closures
+    cg = facts.callgraph()
+    for f1 in list(fam):
+        for cid in cg.get(f1.id, ()):
+            h = facts.fns[cid]
+            if h.crate == fn.crate and h not in fam and h.kind != 'Closure':
+                fam.append(h)
+                fam += [x for x in facts.closures_of(h) if x not in fam]
     for f2 in fam:
         idx = MF.defs_index(f2)
         for b, t in f2.calls():
